@@ -146,7 +146,7 @@ fn random_tree(r: &mut StdRng, hashes: &[Vec<u8>]) -> Sx {
             let j = r.random_range(0..i);
             let pid = sha256(&[&spends[j].0, &spends[j].1, &enc_uint(spends[j].2)]);
             let ph = hashes[r.random_range(0..hashes.len())].clone();
-            let amt = 7u128;
+            let amt = 7u128 + i as u128;
             if r.random_range(0..5) != 0 {
                 spends[j].3.push(Sx::list(vec![Sx::A(vec![51]), Sx::A(ph.clone()), Sx::uint(amt)]));
             }
